@@ -260,7 +260,7 @@ def instances(tier):
     out.append(inst_assign((2, 1), ((1, 1, 2), (0, 1, None)), "scalar"))
     out.append(inst_assign((2, 2), ("i", "i"), "scalar"))
     if not q:
-        out.append(inst_assign((3, 2), ((1, 1, -2), (1, 1, 2)), "exact"))
+        out.append(inst_assign((2, 2), ((1, 1, -2), (1, 1, 2)), "exact"))
         out.append(inst_assign((2, 3), ((1, 1, None), (1, 1, -1)), "ones"))
         out.append(inst_assign((3, 3), ((1, 1, None), (1, 1, None)), "lastaxis"))
     return out
